@@ -354,6 +354,13 @@ def run(tier, seed):
     for _ in range(ntrees):
         t = rand_tree(rng, rng.randint(1, 5))
         cases.append(t)
+    # WIDE data: hundreds of sibling vectors, dotted pairs, quotations and small lists inside one datum (the depth stays 2-3; what grows is the number of
+    # compound data read one after another within one source text)
+    for _ in range(6 if tier == "quick" else 40):
+        w = rng.choice([200, 300, 700])
+        mk = rng.choice([lambda i: Vec([i]), lambda i: Dot([i], i + 1), lambda i: [S("quote"), Vec([i, Vec([])])], lambda i: [i, Dot([i], S("t"))], lambda i: Vec([Dot([i], i)])])
+        rows = [mk(i) for i in range(w)]
+        cases.append(rng.choice([lambda r: r, lambda r: Vec(r), lambda r: Dot(r, 0), lambda r: [S("quote"), Vec(r)]])(rows))
     for k in range(0, len(cases), per):
         steps, m = [], []
         for t in cases[k:k + per]:
